@@ -51,7 +51,7 @@ PROPS = {
         'partial': "",
     },
     'C05': {
-        'suites': [('cacheq', 300, 3000, ''), ('cachet', 150, 1500, ''), ('cacheqa', 100, 1000, '')],
+        'suites': [('cacheq', 300, 3000, ''), ('cachet', 150, 1500, ''), ('cacheqa', 100, 1000, ''), ('ticker', 1, 1, '')],
         'rule': CACHE_RULE % "Cache and AsyncCache" + "ticks at arbitrary (late, irregular) virtual times, expiry instants around second boundaries, neighbours in the same bucket being updated / removed / re-TTL'd; monitors: after a tick at T nothing with bucket <= T is resident, only expired entries are swept, each swept value is reported once with its charged cost",
         'assumptions': COMMON_ASSUMPTIONS + ["the real ticker (crossbeam tick / async-io Timer) firing is runtime behaviour: ticks are labels here"],
         'partial': "the real-time firing of the ticker ('plus one cleanup interval') is not modelled: ticks are labels; the listing invariant and the reclamation theorems are proved for collision-free runs (every conflict hash 0); an item written before a cleanup, already due at it and admitted only afterwards is reclaimed by the next cleanup (hypothesis no_stale_admission of C05_listings_stay_later_than_the_last_cleanup)",
@@ -99,10 +99,10 @@ PROPS = {
         'partial': "",
     },
     'C20': {
-        'suites': [('cachecfg', 400, 4000, ''), ('sketch', 150, 1500, ''), ('bloom', 150, 1500, ''), ('keys', 1, 1, '')],
+        'suites': [('cachecfg', 400, 4000, ''), ('sketch', 150, 1500, ''), ('bloom', 150, 1500, ''), ('keys', 1, 1, ''), ('ticker', 1, 1, '')],
         'rule': CACHE_RULE % "Cache and AsyncCache" + "configurations drawn from num_counters {1..70, 127, 129, 1000}, max_cost {-5, 1, 2, 57, 100, 300}, insert buffer {1, 2, 3, 16}, buffer_items {0, 1, 2, 3, 64}, metrics on/off, ignore_internal_cost on/off, both flavours, followed by inserts (with TTL), lookups, removes, ticks, evictions, clear, close; any panic in a client call or in a worker is caught by the harness (catch_unwind in every actor) and reported; a worker that died shows up as a state divergence or a stuck client; plus the builder's validation (keys suite: zero num_counters / max_cost / buffer size in every combination, on both builders) and sketch/doorkeeper construction for widths 0..70, 127, 129, 1000",
         'assumptions': COMMON_ASSUMPTIONS + ["the clock is monotone (SystemTime going backwards makes Time::elapsed panic: outside the property's quantifier)", "key hashes are u64", "doorkeeper sizing: probes * 2^ceil(log2(max(entries,512))) <= 2^64, i.e. the filter fits in memory"],
-        'partial': "'any positive cleanup interval' and thread/timer start-up are runtime behaviour: the ticker is a label in the model and a controllable channel in the harness; memory exhaustion for huge num_counters is outside the model",
+        'partial': "'any positive cleanup interval': the ticker is a label in the model and a controllable channel in the cache suites; the real timers are exercised by the suite ticker for two intervals only (a measurement with loose bounds, not a theorem); memory exhaustion for huge num_counters is outside the model",
     },
     'C15': {
         'suites': [('cachet', 300, 3000, ''), ('caches', 300, 3000, ''), ('cachesa', 150, 1500, ''), ('tlfu', 100, 1000, '')],
